@@ -80,6 +80,12 @@ for n in (2, 3):
 REG = {"C11": {"quick": quick, "thorough": thorough}}
 
 # Entries proposed for known_findings.json (genuine defect, reproduced natively; see the module report)
+# multi-task with two features: the sign of the reported duality gap at inexact points (small iteration budgets)
+for iters in (2, 6, 10):
+    for pen, l1 in ((24, 2), (48, 2), (8, 1)):
+        quick.append(job("c11.mtenet", secs=60, qto=400, allow=AL, n=3, p=2, icpt=0, centred=0, pen=pen, l1=l1, iters=iters, ob=GAP_SIGN | FINITE, div=3))
+        thorough.append(job("c11.mtenet", secs=300, qto=1000, allow=AL, n=4, p=2, icpt=0, centred=0, pen=pen, l1=l1, iters=iters, ob=GAP_SIGN | FINITE, div=4))
+
 SUGGESTED_KNOWN_FINDINGS = [
     {"property": "C11", "harness": "c11.enet", "params": {"icpt": 1, "centred": 0, "ob": ICPT}, "check": "enet.intercept stationarity (mean residual zero)",
      "what": "ElasticNet::fit with_intercept on un-centred features: compute_intercept (algorithm.rs:514) returns the target mean and never subtracts mean(X).w, so (w,b) is not stationary in b; x=(1,2), y=(1,2), penalty 0: w=0.1, b=1.5, sum of residuals -0.3 (the minimiser is w=1, b=0)"},
